@@ -149,12 +149,12 @@ func main() {
 		}
 	}
 	// ---- random sequential programs ----
-	nSeq := o.Count(500, 6000)
+	nSeq := o.Count(800, 8000)
 	for i := 0; i < nSeq; i++ {
 		add("seq-random", Scenario{Kind: "seq", Steps: randomProgram(r.Fork())})
 	}
 	// ---- concurrent storms ----
-	nStorm := o.Count(70, 1200)
+	nStorm := o.Count(260, 1500)
 	for i := 0; i < nStorm; i++ {
 		add("storm", Scenario{Kind: "storm", Storm: randomStorm(r.Fork())})
 	}
